@@ -1,5 +1,5 @@
 (* Props_C09.v — property C09: theorem statements only. *)
-From Verif Require Import Base Sem Where_Model Where_Proofs C09_Proofs.
+From Verif Require Import Base Sem Where_Model Where_Proofs C09_Proofs C09_Keys C09_KeysProofs.
 
 (* For EVERY chain of Where/Not/Or calls (any length, any nesting of grouped sub-builders, any
    unit form), on plain and soft-delete models, with or without a primary key in the model
@@ -35,3 +35,38 @@ Example c09_instance :
   let cs := [(KWhere, UMap []); (KNot, UGroup [(KWhere, URaw "" ""); (KOr, URaw "age = 1" "age = 1")])] in
   chain_ok tbl cs = true /\ (exists e, build_chain tbl cs = Some e /\ e <> []) /\ effective tbl cs = Some true.
 Proof. cbv zeta. split; [reflexivity|]. split; [eexists; split; [vm_compute; reflexivity|discriminate]|vm_compute; reflexivity]. Qed.
+
+(* "a model value without primary key": the key-condition code of Delete (IN over the identity rows
+   of the deleted value and of the Model value) and of the update methods (one Eq per non-zero key
+   field of a record, IN over a slice when some element has one) contributes a condition exactly
+   when some record handed over has a key field that is not zero - for every number of key fields,
+   records and values *)
+Theorem c09_key_cond_iff : forall del vals, key_cond del vals = has_key vals.
+Proof. exact key_cond_iff. Qed.
+Print Assumptions c09_key_cond_iff.
+
+Theorem c09_has_key_spec : forall vals,
+  has_key vals = true <->
+  exists v r, In v vals /\ (v = VStruct r \/ exists rs, v = VSlice rs /\ In r rs) /\ In false r.
+Proof. exact has_key_spec. Qed.
+Print Assumptions c09_has_key_spec.
+
+(* the guard with the key conditions computed by gorm's own code *)
+Theorem c09_guard_iff_keys : forall tbl cs exprs eff (soft_on del : bool) vals live nlive pka npka,
+  chain_ok tbl cs = true ->
+  build_chain tbl cs = Some exprs -> effective tbl cs = Some eff ->
+  let exprs1 := if key_cond del vals then exprs ++ [XAtom pka npka] else exprs in
+  let exprs2 := if soft_on then soft_delete_exprs live nlive exprs1 else exprs1 in
+  missing_where false soft_on exprs2 = negb (eff || has_key vals).
+Proof.
+  intros tbl cs exprs eff soft_on del vals live nlive pka npka Hok Hb He.
+  rewrite <- (key_cond_iff del vals). exact (guard_iff tbl cs exprs eff soft_on (key_cond del vals) live nlive pka npka Hok Hb He).
+Qed.
+Print Assumptions c09_guard_iff_keys.
+
+(* non-vacuity: a composite key (id, age) with id = 3, age = 0 is a key; all-zero records are none *)
+Example c09_keys_instance :
+  key_cond true [VStruct [false; true]] = true /\ key_cond false [VStruct [false; true]] = true
+  /\ key_cond true [VStruct [true; true]; VSlice [[true]; [true]]] = false
+  /\ key_cond false [VSlice [[true]; [false]]] = true.
+Proof. repeat split. Qed.
